@@ -161,6 +161,38 @@ def run(ctx):
                 ctx.count('levels=%d' % len(sz))
                 if ml_ <= 3 or rng.random() < 0.3:
                     structure_oracle(ctx, cname, ml, A, Acopy, rkind, ml_, case)
+    # adaptive smoothed aggregation: its setup re-derives strength and aggregation inside several nested
+    # constructor calls, so only the structural oracle applies (no level-size prediction)
+    from pyamg.aggregation import adaptive_sa_solver
+    rng2 = ctx.sub('adaptive')
+    from pyamg.gallery import poisson as _poisson
+    for iname, A, kind in ins + [('poisson2d-10x10', sp.csr_array(_poisson((10, 10), format='csr')), 'spd')]:
+        if kind != 'spd' or not sp.issparse(A) or A.format not in ('csr', 'bsr') or A.shape[0] < 12 or iname == 'diag-12':
+            continue          # (a diagonal matrix has no connections: the adaptive candidate is rejected as zero)
+        Acopy = hier.dense_of(A).copy()
+        for ml_ in (1, 2, 3, 5):
+            for mc in (2, 4, 10):
+                for nc, imp in ((1, 0), (2, 0), (1, 1), (2, 1)):
+                    if not (ctx.thorough or ctx.search) and rng2.random() < 0.6:
+                        continue
+                    case = dict(constructor='adaptive', input=iname, max_levels=ml_, max_coarse=mc, num_candidates=nc,
+                                improvement_iters=imp)
+                    ctx.mark(case)
+                    np.random.seed(ctx.seed)
+                    try:
+                        ml = adaptive_sa_solver(A, num_candidates=nc, candidate_iters=2, improvement_iters=imp,
+                                                max_levels=ml_, max_coarse=mc)[0]
+                    except ValueError:
+                        # the adaptive candidate degenerated (all zero / NaN on a tiny coarse level): the constructor
+                        # refuses with an error; no hierarchy is returned, so C04 claims nothing (DESIGN 8.4, O3)
+                        ctx.count('adaptive:degenerate-candidate-ValueError')
+                        continue
+                    except Exception as e:   # noqa
+                        ctx.fail('constructor-raises/adaptive/max_levels=%d' % ml_, repr(e)[:200], case)
+                        continue
+                    ctx.case(('adaptive', iname, ml_, mc, nc, imp), len(ml.levels) >= 2)
+                    ctx.count('constructor:adaptive')
+                    structure_oracle(ctx, 'adaptive', ml, A, Acopy, 'hermitian', ml_, case)
     ctx.corr_relations = ['level sizes of constructor(A, max_levels, max_coarse) == Hierarchy.build on the sizes observed in an unconstrained build (exact)']
     bad, errs = cq.run_cases('c04', HEADER, 'caseT', 'chk', cases, shard=1000)
     for e in errs:
